@@ -519,6 +519,65 @@ func allScenarios() []scenario {
 			),
 		}}
 	}})
+	out = append(out, scenario{"canonical-shared-classes", func() *instance {
+		// labellings of different graphs with separate storage, all given the SAME vertex-class slices (read-only)
+		classes := [][]int{{4, 0, 2}, {5, 3, 1}}
+		one := [][]int{{1, 0, 2, 3, 4, 5}}
+		mk := func(edges [][2]int) graph.Graph {
+			g := graph.NewDense(6, nil)
+			for _, e := range edges {
+				g.AddEdge(e[0], e[1])
+			}
+			return g
+		}
+		gs := []graph.Graph{mk([][2]int{{0, 1}, {1, 2}, {2, 3}, {3, 4}, {4, 5}, {0, 5}}), mk([][2]int{{0, 2}, {2, 4}, {0, 4}, {1, 3}, {3, 5}, {1, 5}}), mk([][2]int{{0, 3}, {1, 4}, {2, 5}})}
+		body := func(g graph.Graph) threadBody {
+			return opsBody(
+				func() string { p, o, gen := graph.CanonicalIsomorphFull(g, classes); return fmt.Sprint(p, o, gen, classes) },
+				func() string { p, o, gen := graph.CanonicalIsomorphFull(g, one); return fmt.Sprint(p, o, gen, one) },
+			)
+		}
+		return &instance{shared: map[string]interface{}{"classes": classes, "one": one}, threads: []threadBody{body(gs[0]), body(gs[1]), body(gs[2])}}
+	}})
+	out = append(out, scenario{"values-from-reused-arguments", func() *instance {
+		// values built (before the goroutines start) from slices that their builder goes on to overwrite and reuse for
+		// its own next values: constructors are documented to copy, so the first values belong to the goroutine using them
+		dims := []int{2, 3}
+		freq := []int{1, 2}
+		edges := []byte{1, 0, 1}
+		nbs := []sortints.SortedInts{{1}, {0, 2}, {1}}
+		it1 := itertools.Product(dims...)
+		mp1 := itertools.MultisetPermutations(freq)
+		d1 := graph.NewDense(3, edges)
+		s1 := graph.NewSparse(3, nbs)
+		si1 := sortints.NewSortedInts(dims...)
+		return &instance{shared: map[string]interface{}{}, threads: []threadBody{
+			opsBody(
+				func() string { return drainInts(it1.Next, it1.Value) },
+				func() string { return drainInts(mp1.Next, mp1.Value) },
+				func() string { return graph.Graph6Encode(d1) + graph.Graph6Encode(s1) + fmt.Sprint(si1, d1.Degrees(), s1.Neighbours(1)) },
+			),
+			opsBody(
+				func() string {
+					dims[0], dims[1] = 1, 1
+					it2 := itertools.Product(dims...)
+					return drainInts(it2.Next, it2.Value)
+				},
+				func() string {
+					freq[0], freq[1] = 2, 0
+					mp2 := itertools.MultisetPermutations(freq)
+					return drainInts(mp2.Next, mp2.Value)
+				},
+				func() string {
+					edges[0], edges[1], edges[2] = 0, 1, 0
+					nbs[0], nbs[1], nbs[2] = sortints.SortedInts{2}, sortints.SortedInts{}, sortints.SortedInts{0}
+					d2 := graph.NewDense(3, edges)
+					s2 := graph.NewSparse(3, nbs)
+					return graph.Graph6Encode(d2) + graph.Graph6Encode(s2) + fmt.Sprint(sortints.NewSortedInts(dims...))
+				},
+			),
+		}}
+	}})
 	out = append(out, scenario{"dawg-shared-arguments", func() *instance {
 		// the goroutines build their searchers and lookups from the SAME read-only byte slices
 		d, err := dawg.New(wordsBytes("opts", "post", "pots", "spot", "stop", "tops"))
